@@ -17,11 +17,17 @@ for f in sorted(os.listdir(os.path.join(VERIF, "benign"))):
         continue
     try:
         res = {}
+        anchors = []
         for pid in claimed:
             c = subprocess.run(["./check", pid], cwd=VERIF, capture_output=True, text=True)
-            if c.returncode != 0:
+            if c.returncode == 2 and "anchor name(s)" in c.stdout and "rename" in f:
+                anchors.append(pid)      # a rename of an identifier listed in an anchor table: exit 2 by contract, never an alarm
+            elif c.returncode != 0:
                 res[pid] = (c.returncode, [l for l in c.stdout.splitlines() if l.startswith("  R") or "BROKEN" in l][:2])
-        print(f, "ok (all %d checks silent)" % len(claimed) if not res else "FALSE ALARM %s" % res, flush=True)
+        if res:
+            print(f, "FALSE ALARM %s" % res, flush=True)
+        else:
+            print(f, "ok (%d checks silent%s)" % (len(claimed) - len(anchors), "; %s report a renamed anchor with exit 2, no alarm" % anchors if anchors else ""), flush=True)
         bad += bool(res)
     finally:
         subprocess.run("git -C /repo reset -q --hard HEAD", shell=True)
